@@ -1288,3 +1288,93 @@ twin('C06', 'undo-status-eq-form', FSPY, 'FileStorage._txn_undo_write',
             pass
         else:
             raise UndoError('non-undoable transaction')''')
+
+# ---------------------------------------------------------------- C07
+breaker('C07', 'gc-no-future-pass', 'C07.R1', PACKPY, 'GC.findReachable',
+        '''            self.findReachableFromFuture()
+''', '')
+breaker('C07', 'gc-wrong-root', 'C07.R1', PACKPY, 'GC.findReachable',
+        'self.findReachableAtPacktime([z64])',
+        'self.findReachableAtPacktime(list(self.oid2curpos.keys())[:1])')
+breaker('C07', 'gc-future-backpointer-not-marked', 'C07.R2', PACKPY,
+        'GC.findReachableFromFuture',
+        '''                    else:
+                        self.reachable[dh.oid] = dh.back
+''', '')
+breaker('C07', 'gc-extra-roots-not-traversed', 'C07.R2', PACKPY,
+        'GC.findReachableFromFuture',
+        '''        for pos in extra_roots:
+            refs = self.findrefs(pos)
+            self.findReachableAtPacktime(refs)''', '''        del extra_roots''')
+breaker('C07', 'copy-skips-reachable-record', 'C07.R3', PACKPY,
+        'FileStoragePacker.copyDataRecords',
+        '''            pos += h.recordlen()
+
+            # If we are going to copy any data, we need to copy''',
+        '''            pos += h.recordlen()
+            if not h.plen and not h.back and copy:
+                continue
+
+            # If we are going to copy any data, we need to copy''')
+breaker('C07', 'copyone-skips-backpointer-records', 'C07.R3', PACKPY,
+        'FileStoragePacker.copyOne',
+        '''                data = self.fetchDataViaBackpointer(h.oid, h.back)
+                if h.back:
+                    prev_txn = self.getTxnFromData(h.oid, h.back)''',
+        '''                data = self.fetchDataViaBackpointer(h.oid, h.back)
+                if h.back:
+                    prev_txn = self.getTxnFromData(h.oid, h.back)
+                if data is None and not h.back:
+                    continue''')
+breaker('C07', 'copyone-wrong-tid', 'C07.R3', PACKPY,
+        'FileStoragePacker.copyOne',
+        'self._copier.copy(h.oid, h.tid, data, prev_txn,',
+        'self._copier.copy(h.oid, th.tid, data, prev_txn,')
+breaker('C07', 'packed-header-status-kept', 'C07.R5', PACKPY,
+        'FileStoragePacker.copyDataRecords',
+        '''                th.status = "p"
+''', '')
+breaker('C07', 'pack-no-time-check', 'C07.R6', FSPY, 'FileStorage.pack',
+        '''        if stop == z64:
+            raise FileStorageError('Invalid pack time')
+''', '')
+breaker('C07', 'pack-empty-check-late', 'C07.R6', FSPY, 'FileStorage.pack',
+        '''        # If the storage is empty, there's nothing to do.
+        if not self._index:
+            return
+
+        with self._lock:
+            if self._pack_is_in_progress:
+                raise FileStorageError('Already packing')
+            self._pack_is_in_progress = True
+''', '''        with self._lock:
+            if self._pack_is_in_progress:
+                raise FileStorageError('Already packing')
+            self._pack_is_in_progress = True
+        # If the storage is empty, there's nothing to do.
+        if not self._index:
+            with self._lock:
+                self._pack_is_in_progress = False
+            return
+''')
+breaker('C07', 'ms-pack-drops-current', 'C07.R7', MSPY, 'MappingStorage.pack',
+        '''                tids_to_remove.pop()    # Keep the last, if any
+
+''', '')
+twin('C07', 'gc-findreachable-reordered-guard', PACKPY, 'GC.findReachable',
+     '''        if self.gc:
+            self.findReachableAtPacktime([z64])
+            self.findReachableFromFuture()
+            # These mappings are no longer needed and may consume a lot of
+            # space.
+            del self.oid2curpos
+        else:
+            self.reachable = self.oid2curpos''',
+     '''        if not self.gc:
+            self.reachable = self.oid2curpos
+        else:
+            self.findReachableAtPacktime([z64])
+            self.findReachableFromFuture()
+            # These mappings are no longer needed and may consume a lot of
+            # space.
+            del self.oid2curpos''')
